@@ -9,27 +9,12 @@ Import ListNotations.
 From Zn.model Require Import StringLit.
 Open Scope Z_scope.
 
-(* Could a CR/LF be consumed by the escape machine in this source?  (a backtick, then only characters on which the
-   machine continues, then CR or LF).  For such sources the recorded line starts are not compared: the pinned lexer
-   keeps the break in the value but records no line, which is property C18's subject, not C13's. *)
-Definition esc_continue (c : Z) : bool :=
-  is_hex c || (c =? 76) || (c =? 84) || (c =? 83) || (c =? 85) || (c =? 82) || (c =? 80) || (c =? 75) || (c =? 43).
-Fixpoint swallow_risk_from (in_run : bool) (l : list Z) : bool :=
-  match l with
-  | [] => false
-  | x :: t => if x =? BT then swallow_risk_from true t
-              else if (x =? CR) || (x =? LF) then (if in_run then true else swallow_risk_from false t)
-              else if esc_continue x then swallow_risk_from in_run t
-              else swallow_risk_from false t
-  end.
-Definition swallow_risk (src : list Z) : bool := swallow_risk_from false src.
-
-(* ok [1; type; end; |lit|; lit...; |lines|; lines...] (lines omitted as [0] when not judged)   error [0; code]   fuel [3] *)
+(* ok [1; type; end; |lit|; lit...; |lines|; lines...] (the recorded line starts are always compared: since repair 7640347 the escape machine stops before a line break)   error [0; code]   fuel [3] *)
 Definition run_lex_j (src : list Z) : list Z :=
   match lex_string src with
   | LexOk ty lit e lines =>
       1 :: ty :: e :: Z.of_nat (length lit) :: lit ++
-      (if swallow_risk src then [0] else Z.of_nat (length lines) :: lines)
+      (Z.of_nat (length lines) :: lines)
   | LexErr code _ => [0; code]
   | OutOfFuel => [3]
   end.
